@@ -34,7 +34,7 @@ func VerifHarness_C13_channel_numbers() {
 // WriteTo gating: data toward a peer only after a CreatePermission success for it, as a Send
 // indication while the channel is not confirmed; an error (and no data) when the permission cannot be had.
 //
-//verif:props=C13 unwind=12 bounds="one WriteTo to a fresh arbitrary IPv4/IPv6 peer; every server reaction (success/400/403/438/silence) to each of up to 3 CreatePermission attempts; 4-byte payload; client write may fail"
+//verif:props=C13,C18 unwind=12 bounds="one WriteTo to a fresh arbitrary IPv4/IPv6 peer; every server reaction (success/400/403/438/silence) to each of up to 3 CreatePermission attempts; 4-byte payload; client write may fail"
 func VerifHarness_C13_write_needs_permission() {
 	fc := &vClient{fixed: -1, writeFails: true}
 	c := vNewUDPConn(fc)
@@ -73,7 +73,7 @@ func VerifHarness_C13_write_needs_permission() {
 // Channel binding life cycle of one peer: ChannelData is used only once a ChannelBind for exactly
 // (peer, number) succeeded; until then, and after a failed first bind, Send indications are used.
 //
-//verif:props=C13 unwind=12 bounds="permission already granted; first WriteTo starts the ChannelBind goroutine, which sees every server reaction (up to 3 attempts); then a second WriteTo; 4-byte payloads; IPv4/IPv6 peer"
+//verif:props=C13,C18 unwind=12 bounds="permission already granted; first WriteTo starts the ChannelBind goroutine, which sees every server reaction (up to 3 attempts); then a second WriteTo; 4-byte payloads; IPv4/IPv6 peer"
 func VerifHarness_C13_channel_confirmation() {
 	fc := &vClient{fixed: -1}
 	c := vNewUDPConn(fc)
